@@ -34,7 +34,7 @@ for pid in ALL:
             "evidence_file": "evidence/%s.json" % pid,
             "replay_cmd_template": "./check %s --replay {path}" % pid,
             "engine": "earverif-lean",
-            "level_claimed": {"category": "proof", "text": c["text"], "design_ref": c["design_ref"]},
+            "level_claimed": {"category": "proof", "text": c["text"], "design_ref": c["design_ref"] + " (the plan); current state: DESIGN.md section 9.1 row " + pid + ", findings 9.3-9.5"},
             "level_note": c["note"],
             "technique": c["technique"],
         })
